@@ -1,11 +1,11 @@
 #!/bin/sh
 # run every registered check (quick tier) and summarise
 cd "$(dirname "$0")/.." || exit 2
-mkdir -p .cache/logs
+L=.cache/logs-${1:-quick}; mkdir -p $L
 for id in $(python3 -c "import json;print(' '.join(c['property_id'] for c in json.load(open('MANIFEST.json'))['checks']))"); do
   s=$(date +%s)
-  ./check $id --tier ${1:-quick} > .cache/logs/$id.log 2>&1
+  ./check $id --tier ${1:-quick} > $L/$id.log 2>&1
   rc=$?
   e=$(date +%s)
-  echo "$id rc=$rc $((e-s))s $(grep -c '^VIOLATION' .cache/logs/$id.log) violations $(grep -c '^KNOWN-FINDING' .cache/logs/$id.log) known"
+  echo "$id rc=$rc $((e-s))s $(grep -c '^VIOLATION' $L/$id.log) violations $(grep -c '^KNOWN-FINDING' $L/$id.log) known"
 done
